@@ -271,7 +271,7 @@ class Verifier:
         self.presets = presets
         self.import_table = import_table
 
-    def verify(self, ops, log, probes=None):
+    def verify(self, ops, log, probes=None, second=True):
         """-> list of Violation, in history order."""
         P = probes if probes is not None else {}
 
@@ -291,7 +291,7 @@ class Verifier:
 
         def ask(K, call):
             a = self.oracle.query(K, call)
-            if self.oracle2 is not None:
+            if self.oracle2 is not None and second:
                 b = self.oracle2.query(K, call)
                 if a[:2] != b[:2]:
                     out.append(Violation("oracles_agree", idx, {"call": list(call), "a": a[:2], "b": b[:2]}))
